@@ -172,9 +172,12 @@ func (c *verifOneShotCodec) ReadMessage() (*Message, error) {
 	<-c.block
 	return nil, errors.New("closed")
 }
-func (c *verifOneShotCodec) WriteMessage(m *Message) error { c.written = append(c.written, m); return nil }
-func (c *verifOneShotCodec) Close() error                  { return nil }
-func (c *verifOneShotCodec) RemoteAddr() string            { return "x" }
+func (c *verifOneShotCodec) WriteMessage(m *Message) error {
+	c.written = append(c.written, m)
+	return nil
+}
+func (c *verifOneShotCodec) Close() error       { return nil }
+func (c *verifOneShotCodec) RemoteAddr() string { return "x" }
 
 // VerifC14Routing: from an arbitrary pending table, one incoming reply is
 // routed to the channel of its own id only; receive(k) returns only a message
